@@ -60,6 +60,10 @@ Definition dn (A : nat) (z : Z) : dna := en A (dg z).
    by the digit 15 *)
 Definition dnb (A L : nat) (z : Z) : batch := map (en A) (chunks L (dg z)).
 Definition obn (A L k : nat) (z : Z) : list batch := chunks k (dnb A L z).
+(* the same for long rows: the digits are spread over several numerals (one numeral of tens of
+   thousands of digits overflows the parser's stack) *)
+Definition dnbL (A L : nat) (zs : list Z) : batch := map (en A) (chunks L (concat (map dg zs))).
+Definition obnL (A L k : nat) (zs : list Z) : list batch := chunks k (dnbL A L zs).
 Fixpoint splitf (l cur : list nat) : list (list nat) :=
   match l with
   | [] => []
